@@ -192,7 +192,8 @@ def install4(R: Registry):
                raises={"DuplicateNameError": [("C12", clash, "a name conflict is reported only when there is one")]})
 
 
-PARSER_C12 = [P + "Parser.check_duplicate_name#five", P + "Parser.handle_host_id", P + "Parser.handle_module_id", P + "Parser.validate_msg_id"]
+PARSER_C12 = [P + "Parser.check_duplicate_name#five", P + "Parser.handle_host_id", P + "Parser.handle_module_id", P + "Parser.validate_msg_id",
+              P + "Parser.handle_string", P + "Parser.handle_expression#int", P + "Parser.handle_expression#str", P + "Parser.handle_alias", P + "Parser.handle_signal"]
 
 
 def install5(R: Registry):
@@ -202,11 +203,11 @@ def install5(R: Registry):
     nonnull = " and ".join(f"forall('k:Str', implies(dom(self.{f})[k], self.{f}[k] != null))" for f in FIVE)
     R.define("anyclash", "self: Parser, name: Str", clash, "some constant, string constant, alias, struct or message already has this name")
     R.define("tables_nonnull", "self: Parser", nonnull)
-    d = R.declare_class("ConstantString", fields=dict(name="Str", value="Str", src="PathObj"))
+    d = R.declare_class("ConstantString", fields=dict(value="Str"), bases=["Named"])     # a Named (name, src) with a value: the tables hold Named references
     d.dataclass = True
     R.contract(P + "Parser.handle_string", tags="C12", params=dict(name="Str", value="Str"),
                requires=["tables_nonnull(self)", "self.current_file != null"],
-               modifies=["Parser.string_constants", "ConstantString.*"],
+               modifies=["Parser.string_constants", "ConstantString.*", "Named.*"],
                ensures=[("C12", "not old(anyclash(self, name))", "a string constant is accepted only if its name is free in all five shared namespaces"),
                         ("C12", "dom(self.string_constants)[name] and self.string_constants[name].name == name and "
                                 "forall('k:Str', implies(k != name, dom(self.string_constants)[k] == old(dom(self.string_constants)[k]) and self.string_constants[k] == old(self.string_constants[k])))",
@@ -215,3 +216,67 @@ def install5(R: Registry):
                raises={"DuplicateNameError": [("C12", "old(anyclash(self, name))", "a name conflict is reported only when there is one"),
                                               ("C12", "self.string_constants == old(self.string_constants)")],
                        "RTMASyntaxError": [("C12", "self.string_constants == old(self.string_constants)")]})
+
+    d = R.declare_class("ConstantExpr", fields=dict(expression="Str", expanded="Str", value="Int"), bases=["Named"])
+    d.dataclass = True
+    R.external("Parser.expand_expression", params=dict(self="Parser", name="Str", expr="Str"), returns="Tuple[Str, Int]", pure=True, ensures=[],
+               raises={"ExpressionExpansionError": [], "CircularRefError": [], "RecursionError": [], "Exception": []},
+               doc="macro expansion and eval of a constant expression: a value or an error; registers nothing")
+    for kind, ty in (("int", "Int"), ("str", "Str")):
+        R.contract(P + "Parser.handle_expression#" + kind, tags="C12", params=dict(name="Str", expression=ty),
+                   requires=["tables_nonnull(self)", "self.current_file != null"],
+                   modifies=["Parser.constants", "ConstantExpr.*", "Named.*"],
+                   ensures=[("C12", "not old(anyclash(self, name))", "a constant is accepted only if its name is free in all five shared namespaces"),
+                            ("C12", "dom(self.constants)[name] and self.constants[name].name == name and "
+                                    "forall('k:Str', implies(k != name, dom(self.constants)[k] == old(dom(self.constants)[k]) and self.constants[k] == old(self.constants[k])))",
+                             "exactly the new item is registered, under its own name"),
+                            ("C12", "tables_nonnull(self)")],
+                   raises={"DuplicateNameError": [("C12", "old(anyclash(self, name))", "a name conflict is reported only when there is one"),
+                                                  ("C12", "self.constants == old(self.constants)")],
+                           "RTMASyntaxError": [("C12", "self.constants == old(self.constants)")],
+                           "ExpressionExpansionError": [("C12", "self.constants == old(self.constants)")], "CircularRefError": [("C12", "self.constants == old(self.constants)")],
+                           "RecursionError": [("C12", "self.constants == old(self.constants)")], "Exception": [("C12", "self.constants == old(self.constants)")],
+                           "InvalidTypeError": [("C12", "False")]})
+
+    d = R.declare_class("TypeAlias", fields=dict(type_name="Str", type_obj="Named"), bases=["Named"])
+    d.dataclass = True
+    R.define("aliases_typed", "self: Parser", "forall('k:Str', implies(dom(self.aliases)[k], dtype(self.aliases[k]) == classid(TypeAlias)))", "the alias table holds TypeAlias objects")
+    ALIAS_INV = ["self.aliases == old(self.aliases) and tables_nonnull(self) and not old(anyclash(self, alias)) and aliases_typed(self)",
+                 "forall('o:Named', implies(old(allocated(o)), o.name == old(o.name)))"]
+    R.contract(P + "Parser.handle_alias", tags="C12", params=dict(alias="Str", ftype="Str"),
+               requires=["tables_nonnull(self)", "self.current_file != null", "aliases_typed(self)"],
+               modifies=["Parser.aliases", "TypeAlias.*", "Named.*"],
+               ensures=[("C12", "not old(anyclash(self, alias))", "an alias is accepted only if its name is free in all five shared namespaces"),
+                        ("C12", "dom(self.aliases)[alias] and self.aliases[alias].name == alias and "
+                                "forall('k:Str', implies(k != alias, dom(self.aliases)[k] == old(dom(self.aliases)[k]) and self.aliases[k] == old(self.aliases[k])))",
+                         "exactly the new item is registered, under its own name"),
+                        ("C12", "tables_nonnull(self) and aliases_typed(self)")],
+               raises={"DuplicateNameError": [("C12", "old(anyclash(self, alias))", "a name conflict is reported only when there is one"),
+                                              ("C12", "self.aliases == old(self.aliases)")],
+                       "RTMASyntaxError": [("C12", "self.aliases == old(self.aliases)")], "RecursionError": [("C12", "self.aliases == old(self.aliases)")],
+                       "InvalidTypeError": [("C12", "False")]},
+               loops={1: dict(invariant=ALIAS_INV), 2: dict(invariant=ALIAS_INV), 3: dict(invariant=ALIAS_INV)})
+
+    from pyvc.core import parse_type
+    d = R.declare_class("MDF", fields=dict(raw="Str", hash="Str", type_id="Int", fields="List[Field]", alignment="Int"), bases=["Named"])
+    d.dataclass = True
+    R.external("textwrap.dedent", params=dict(text="Str"), returns="Str", pure=True, ensures=[])
+    R.declare_class("HashObj", external=True, fields={})
+    R.external("hashlib.sha256", params=dict(data="Buffer"), returns="HashObj", pure=True, ensures=["result != null"], doc="sha256 of the text (the digest itself is the business of C13's template contract)")
+    R.external("HashObj.hexdigest", params=dict(self="HashObj"), returns="Str", pure=True, ensures=[])
+    R.contract(P + "Parser.handle_signal", tags="C12", params=dict(name="Str", mdf="Dict[Str, Int]"),
+               requires=["reg_message_ids(self)", "tables_nonnull(self)", "self.current_file != null", "dom(mdf)['id']"],
+               modifies=["Parser.message_ids", "Parser.message_defs", "MT.*", "MDF.*", "Named.*"],
+               ensures=[("C12", "not old(idclash_message_ids(self, mdf['id'])) and 0 <= mdf['id'] and mdf['id'] <= 10000",
+                         "a signal (or reserved id) is registered only if its id is in range and not used by any message, signal or reserved id"),
+                        ("C12", "dom(self.message_ids)[name] and self.message_ids[name].value == mdf['id'] and self.message_ids[name].name == name and "
+                                "forall('k:Str', implies(k != name, dom(self.message_ids)[k] == old(dom(self.message_ids)[k]) and self.message_ids[k] == old(self.message_ids[k])))",
+                         "the id registered is the id validated, under the definition's own name: a later definition with the same id conflicts with it"),
+                        ("C12", "dom(self.message_defs)[name] and self.message_defs[name].name == name and "
+                                "forall('k:Str', implies(k != name, dom(self.message_defs)[k] == old(dom(self.message_defs)[k]) and self.message_defs[k] == old(self.message_defs[k])))")],
+               raises={"MessageIDError": [("C12", "old(idclash_message_ids(self, mdf['id']))", "a conflict is reported only when there is one"),
+                                          ("C12", "self.message_ids == old(self.message_ids) and self.message_defs == old(self.message_defs)")],
+                       "RTMASyntaxError": [("C12", "mdf['id'] < 0 or mdf['id'] > 10000"), ("C12", "self.message_ids == old(self.message_ids) and self.message_defs == old(self.message_defs)")],
+                       # the engine's str.encode() is the ASCII codec (it may raise); the real default codec is UTF-8, which does not: an over-approximation, nothing is registered on that path
+                       "UnicodeEncodeError": [("C12", "self.message_ids == old(self.message_ids) and self.message_defs == old(self.message_defs)")],
+                       "InvalidTypeError": [("C12", "False")]})
